@@ -195,6 +195,9 @@ func (w *World) BuildGenesis() types.AppState {
 		ctrl := w.Addrs[(i+1)%len(w.Addrs)]
 		rew := w.Addrs[(i+2)%len(w.Addrs)]
 		c := types.Candidate{ID: uint64(i + 1), RewardAddress: rew, OwnerAddress: owner, ControlAddress: ctrl, PubKey: w.PubKeys[i], Commission: uint64(r.Intn(101)), Status: 2}
+		if i >= o.ValidatorN && r.Intn(2) == 0 {
+			c.Status = 1
+		}
 		total := big.NewInt(0)
 		ns := 1 + r.Intn(4)
 		used := map[string]bool{}
